@@ -4,7 +4,10 @@ through the tasks' `next` words, with a countdown in the upper half of the head 
 `wake_by_ref` calls (several per task), one owner (`take_scheduled`, the iterator), at the granularity of the atomic
 operations, sequentially consistent.  `stack` and `iter` are ghost lists: the chain hanging off the head and the chain
 the iterator still has to walk; the code only follows `next` words, and the invariant shows that this is the same.
-Discarding (`discard_scheduled`, the iterator's drop) is not in this model.
+`discard_scheduled` is `take_scheduled(0)` followed by the iterator's drop, which walks the chain and puts every element
+back to SLEEPING without yielding it (`dropNext`; its load and store are taken as one step: the only operation that can
+fall between them is the no-op CAS of a concurrent wake, whose effect is then discarded exactly as if it had come just
+before).
 -/
 namespace NexoVerif.TSet
 
@@ -66,6 +69,7 @@ inductive Label
   | wNotify (w : Nat)
   | take (c : Nat)
   | iterNext
+  | dropNext             -- the iterator's drop handling one element: `next` := SLEEPING, nothing yielded
 deriving Repr
 
 def step (l : Label) (s : St) : Option St :=
@@ -129,6 +133,16 @@ def step (l : Label) (s : St) : Option St :=
                                 need := upd s.need j false, yielded := s.yielded ++ [j] }
       | .idx k => some { s with next := upd s.next j .sleeping, cur := some k, iter := s.iter.tail,
                                 need := upd s.need j false, yielded := s.yielded ++ [j] }
+    | none => none
+  | .dropNext =>
+    match s.cur with
+    | some j =>
+      match s.next j with
+      | .sleeping => some { s with err := true, cur := none }
+      | .empty => some { s with next := upd s.next j .sleeping, cur := none, iter := s.iter.tail,
+                                need := upd s.need j false }
+      | .idx k => some { s with next := upd s.next j .sleeping, cur := some k, iter := s.iter.tail,
+                                need := upd s.need j false }
     | none => none
 
 def St.init (n m : Nat) : St := { n := n, m := m }
